@@ -178,8 +178,18 @@ def gen_weather(rng, n, counter=[0]):
         # columns: the five in the k-th permutation, extra columns inserted anywhere
         perm = PERMS[k % 120]
         cols = [(cid, NAMES[cid]) for cid in perm]
+        used = set()
         for x in range(rng.choice([0, 0, 1, 2, 3])):
-            cols.insert(rng.randint(0, len(cols)), (5 + x, rng.choice(["Wind", "RH", "Tmean", "date", "mintemp"]) + str(x)))
+            if rng.random() < 0.35:
+                # an unrelated column whose label differs from a required one only by case / blanks: binding is by the EXACT name
+                nm = rng.choice(["precipitation", "maxtemp", "MINTEMP", " ReferenceET", "referenceet", "date", "Date ", "Precipitation ", "minTemp", "MaxTemp "])
+                if nm in used:
+                    nm = nm + str(x)
+                COVER["weather:lookalike_extra_column"] += 1
+            else:
+                nm = rng.choice(["Wind", "RH", "Tmean", "date", "mintemp"]) + str(x)
+            used.add(nm)
+            cols.insert(rng.randint(0, len(cols)), (5 + x, nm))
         mal = None
         if cat == "malformed":
             mal = rng.choice(["missing", "dupdate", "numdate"])
